@@ -42,12 +42,24 @@ type mbLink struct {
 	regs   *modbus.Regs
 	client *modbus.Client
 	srv    *modbus.Server
+	uid    byte // the unit id the server answers to and the client addresses
+}
+
+// c19UID derives the unit id of a case from its text (1..247; no random choice is consumed, so that the generated cases stay
+// the ones they were): server and client of a link use the same id, as an application would; an id that is encoded or
+// decoded wrongly makes the server ignore the request ("not for this device") and shows up as a time-out
+func c19UID(c string) byte {
+	h := 0
+	for i := 0; i < len(c); i++ {
+		h = (h*31 + int(c[i])) % 247
+	}
+	return byte(1 + h)
 }
 
 func c19Init() {}
 
 // c19Link creates a fresh in-memory client/server pair for one framing and one register file.
-func c19Link(fr string, regs *modbus.Regs) *mbLink {
+func c19Link(fr string, regs *modbus.Regs, uid byte) *mbLink {
 	a0, b0 := net.Pipe()
 	var a, b net.Conn = &dlConn{a0, time.Hour}, &dlConn{b0, 150 * time.Millisecond}
 	var ts, tc modbus.Transport
@@ -58,9 +70,9 @@ func c19Link(fr string, regs *modbus.Regs) *mbLink {
 		ts = modbus.NewTCP(a0, 300*time.Millisecond, modbus.TransportServer)
 		tc = modbus.NewTCP(b0, 150*time.Millisecond, modbus.TransportClient)
 	}
-	srv := modbus.NewServer(1, ts, regs, 0)
+	srv := modbus.NewServer(uid, ts, regs, 0)
 	go srv.Listen(func(error) {}, func() {}, func() {})
-	return &mbLink{regs: regs, client: modbus.NewClient(tc, 0), srv: srv}
+	return &mbLink{regs: regs, client: modbus.NewClient(tc, 0), srv: srv, uid: uid}
 }
 
 func mbErr(err error) string {
@@ -90,9 +102,9 @@ func c19Read(l *mbLink, kind string, fc int, a, n uint16) string {
 		var bits []bool
 		var err error
 		if fc == 1 {
-			bits, err = l.client.ReadCoils(1, a, n)
+			bits, err = l.client.ReadCoils(l.uid, a, n)
 		} else {
-			bits, err = l.client.ReadDiscreteInputs(1, a, n)
+			bits, err = l.client.ReadDiscreteInputs(l.uid, a, n)
 		}
 		if err != nil {
 			return mbErr(err)
@@ -113,9 +125,9 @@ func c19Read(l *mbLink, kind string, fc int, a, n uint16) string {
 	var vs []uint16
 	var err error
 	if fc == 3 {
-		vs, err = l.client.ReadHoldingRegs(1, a, n)
+		vs, err = l.client.ReadHoldingRegs(l.uid, a, n)
 	} else {
-		vs, err = l.client.ReadInputRegs(1, a, n)
+		vs, err = l.client.ReadInputRegs(l.uid, a, n)
 	}
 	if err != nil {
 		return mbErr(err)
@@ -134,7 +146,7 @@ func c19Run(c string) string {
 		// sq <fr> <regs> <kind:fc:addr:count;...>: several read requests over ONE link (on TCP the transaction id goes up
 		// with every request and every answer must echo the one just sent)
 		specs := parseRegs(f[2])
-		l := c19Link(f[1], buildRegs(specs))
+		l := c19Link(f[1], buildRegs(specs), c19UID(c))
 		defer func() { go l.srv.Close() }()
 		var res []string
 		for _, rq := range strings.Split(f[3], ";") {
@@ -144,7 +156,7 @@ func c19Run(c string) string {
 		return strings.Join(res, " ; ")
 	case "rb", "rr", "ws":
 		specs := parseRegs(f[2])
-		l := c19Link(f[1], buildRegs(specs))
+		l := c19Link(f[1], buildRegs(specs), c19UID(c))
 		defer func() { go l.srv.Close() }()
 		fc, a, n := int(atoi64(f[3])), uint16(atoi64(f[4])), uint16(atoi64(f[5]))
 		switch f[0] {
@@ -152,9 +164,9 @@ func c19Run(c string) string {
 			var bits []bool
 			var err error
 			if fc == 1 {
-				bits, err = l.client.ReadCoils(1, a, n)
+				bits, err = l.client.ReadCoils(l.uid, a, n)
 			} else {
-				bits, err = l.client.ReadDiscreteInputs(1, a, n)
+				bits, err = l.client.ReadDiscreteInputs(l.uid, a, n)
 			}
 			if err != nil {
 				return mbErr(err)
@@ -175,9 +187,9 @@ func c19Run(c string) string {
 			var vs []uint16
 			var err error
 			if fc == 3 {
-				vs, err = l.client.ReadHoldingRegs(1, a, n)
+				vs, err = l.client.ReadHoldingRegs(l.uid, a, n)
 			} else {
-				vs, err = l.client.ReadInputRegs(1, a, n)
+				vs, err = l.client.ReadInputRegs(l.uid, a, n)
 			}
 			if err != nil {
 				return mbErr(err)
@@ -190,9 +202,9 @@ func c19Run(c string) string {
 		default:
 			var err error
 			if fc == 5 {
-				err = l.client.WriteSingleCoil(1, a, n != 0)
+				err = l.client.WriteSingleCoil(l.uid, a, n != 0)
 			} else {
-				err = l.client.WriteSingleReg(1, a, n)
+				err = l.client.WriteSingleReg(l.uid, a, n)
 			}
 			o := "ok"
 			if err != nil {
